@@ -662,6 +662,15 @@ def d_validate( ctx ):
         res.ok( src, re_fn, '%s derives from the path index and the requested element count' % endact_v )
     else:
         res.bad( src, re_fn, endact_v, 'the requested extent must derive from the path element index and .elements', func='Logix.reply_elements' )
+    # ... and is not clamped to the tag length: a request reaching past the end must stay detectable (the slice check refuses it)
+    cnt_dep = any( is_cnt( y ) or ( isinstance( y, ast.Name ) and y.id in cnt_vars ) for d_ in rld.defs.get( endact_v, [] ) for y in ast.walk( d_ ))
+    explicit = [ s_ for s_, test in guards for l, op, r, c in pairs( test ) if dotted( l ) == endact_v and dotted( r ) in cnt_vars and isinstance( op, ast.LtE ) ]
+    if cnt_dep and not explicit:
+        d0 = rld.defs.get( endact_v, [ None ] )[0]
+        res.bad( src, d0 if d0 is not None else re_fn, '%s = %s' % ( endact_v, norm_text( d0 ) if d0 is not None else '?' ),
+                 'the requested extent is clamped to the tag length: a request for elements past the end of the tag is silently shortened and acknowledged instead of being refused with 0xFF/0x2105', func='Logix.reply_elements' )
+    else:
+        res.ok( src, re_fn, '%s is the requested extent (not clamped to the tag length)' % endact_v )
     # end = min( endactual, endmax )
     ends = rld.defs.get( end_v, [] )
     if any( is_call_to( v, 'min' ) and endact_v in [ dotted( a ) for a in v.args ] for v in ends ):
